@@ -35,7 +35,16 @@ func genW1(prop, tier string, r *simrt.Rng) *w1Case {
 	case "C14":
 		genC14(c, r)
 	case "C05":
-		genC05(c, r)
+		// the byte monitor judges every run: half corner configurations, half the workloads of the other
+		// device properties
+		if r.Chance(0.5) {
+			genC05(c, r)
+		} else {
+			others := []string{"C01", "C02", "C03", "C04", "C13", "C06", "C07", "C08", "C08", "C06"}
+			inner := genW1(others[r.Intn(len(others))], tier, r)
+			*c = *inner
+			c.unplugs = []int{-1}
+		}
 	case "C06":
 		genC06(c, r, thorough)
 	case "C07":
@@ -76,6 +85,11 @@ func genC01(c *w1Case, r *simrt.Rng, thorough bool) {
 		return
 	case 3:
 		scenarioLearningGateKeyAxis(c, r)
+		return
+	}
+	if r.Chance(0.3) {
+		genSandwich(c, r)
+		unplugPoints(c, r, thorough)
 		return
 	}
 	axes := r.Pick(5, 3, 2)
@@ -486,3 +500,77 @@ func (g *scriptGen) exitAllDown() bool {
 }
 
 var _ = big.NewRat
+
+// genSandwich draws "hold - change state - release - undo" histories: something is held (a note key or a
+// deflected key-emulating axis), a random subset of state-changing actions is applied (taps, or
+// cc_learning pressed and kept down), the held thing is released, then the kept-down actions are released.
+// That is the shape behind every stuck-note defect seen so far.
+func genSandwich(c *w1Case, r *simrt.Rng) {
+	acts := append([]string{}, transposeActions...)
+	acts = append(acts, "panic", "cc_learning", "multinote")
+	o := genOpts{prop: "C01", nKeys: [2]int{1, 4}, nMaps: [2]int{2, 3}, notePool: []int{60, 62, 64, 60}, offsets: r.Chance(0.4), actions: acts, exitLen: -1,
+		defaults: true, unmapProb: 0.4, remapProb: 0.4, axes: r.Range(1, 2), axisKinds: []string{"key", "key1", "cc", "cc2", "none", "key"}, axisKindsPerMapping: true, handlers: 1}
+	c.d = baseDesc(r, o)
+	forceHatLike(c.d, r)
+	g := newScriptGen(r, c.d)
+	axes := g.axisList()
+	rounds := r.Range(1, 4)
+	for i := 0; i < rounds; i++ {
+		// hold
+		var heldAxes []model.AxisDesc
+		nh := r.Range(1, 2)
+		for h := 0; h < nh; h++ {
+			if len(axes) > 0 && r.Chance(0.5) {
+				a := axes[r.Intn(len(axes))]
+				v := a.Max
+				if r.Chance(0.5) {
+					v = a.Min
+				}
+				g.out = append(g.out, model.Event{Kind: "abs", Code: a.Code, Value: v})
+				heldAxes = append(heldAxes, a)
+			} else if len(g.noteK) > 0 {
+				k := g.noteK[r.Intn(len(g.noteK))]
+				if !g.down[k.Code] {
+					g.key(k.Code, 1)
+				}
+			}
+		}
+		// change
+		p := r.Perm(len(c.d.Actions))
+		for _, ai := range p {
+			if !r.Chance(0.4) {
+				continue
+			}
+			ak := c.d.Actions[ai]
+			if g.pressAction(ak) {
+				if !(ak.Action == "cc_learning" && r.Chance(0.7)) && !r.Chance(0.15) {
+					g.release(ak.Code)
+				}
+			}
+		}
+		// release what is held
+		for _, a := range heldAxes {
+			if v, ok := g.neutralRaw(a); ok && r.Chance(0.8) {
+				// the physical centre when it is neutral
+				g.out = append(g.out, model.Event{Kind: "abs", Code: a.Code, Value: v})
+			} else {
+				g.out = append(g.out, model.Event{Kind: "abs", Code: a.Code, Value: g.safeRaw(r, a)})
+			}
+		}
+		for _, code := range append([]uint16(nil), g.order...) {
+			if g.actionOf(code) == "" {
+				g.release(code)
+			}
+		}
+		// undo
+		for _, code := range append([]uint16(nil), g.order...) {
+			g.release(code)
+		}
+		if r.Chance(0.3) {
+			g.steps(r.Range(1, 4), 3, 3, 2, false)
+		}
+	}
+	g.releaseAll()
+	g.axesToCentre()
+	c.script = g.out
+}
